@@ -4,7 +4,7 @@ Rust API is an outcome both sides must agree on); the C API is driven in supervi
 (vharness `capi`): a worker that dies or does not answer within the watchdog limit is the violation."""
 import os
 
-from . import capicommon, edcommon, edoracles
+from . import c03, capicommon, edcommon, edoracles
 from .common import BUILD
 
 PROP = "C01"
@@ -37,10 +37,22 @@ def capi_part(res, st, tier, work):
     return fails
 
 
+def engine_part(res, st, tier, work):
+    """ConversionEngine::convert called directly (dense graphs, frequencies beyond i32): a panic is the violation; the
+    engine model of C01_conversion_engine_never_panics is compared with the implementation alternative by alternative"""
+    return [f for f in c03.conv_cases(res, st, tier, work) if f["signature"] == "convert-panics"]
+
+
+def both_parts(res, st, tier, work):
+    return engine_part(res, st, tier, work) + capi_part(res, st, tier, work)
+
+
 def run(tier):
-    return edcommon.run_check(PROP, tier, edoracles.c01, RULE, edcommon.ED_ASSUMPTIONS + [
+    return edcommon.run_check(PROP, tier, edoracles.c01, RULE + "; (c) ConversionEngine::convert on generated compositions "
+        "(all three engines, dense phrase graphs, frequencies up to 2^32-1), every ranked alternative compared with the engine model",
+        edcommon.ED_ASSUMPTIONS + [
         "C API glue (capi/src/io.rs) is not modelled beyond Config.v / CapiMem.v: it is exercised by the supervised-worker campaign only"],
-        extra=capi_part)
+        extra=both_parts)
 
 
 def replay(path):
